@@ -61,3 +61,17 @@ def search(tier, seed, hbin, rundir, _alarm):
         v["ops"] = [o if len(o) < 300 else o[:200] + " ...(%d tokens)" % len(o.split()) for o in v["ops"]]
     search.stats = dict(bign_histories=hid, bign_sizes=sizes)
     return v
+
+
+def borrow_search(tier, seed, hbin, rundir, _alarm):
+    """C12, last clause (borrowed lookups): implementation-only random
+    histories on String-keyed queues addressed through &str"""
+    count = 3000 if tier == "quick" else 40000
+    p = subprocess.run([hbin, "borrow", str(seed), str(count), "80"], stdout=subprocess.PIPE,
+                       stderr=subprocess.STDOUT, text=True)
+    borrow_search.stats = dict(borrowed_lookup_histories=count, borrowed_lookup_ops=count * 80)
+    if p.returncode == 0:
+        return None
+    lines = p.stdout.strip().split("\n")
+    return dict(header="(String-keyed queue; lookups through &str)", ops=[l.strip() for l in lines[1:]],
+                step=len(lines) - 2, why=lines[0], impl=lines[0], no_minimise=True)
